@@ -857,6 +857,9 @@ class _ProbeContextInjectorNode(_ProbeNode):
 
         data = payload.data
         context = payload.context
+        # Let the probe publish the context entries it declares (e.g. the
+        # ``<var>_values`` sequences of a parameter sweep), as data nodes do
+        setattr(self.processor, "observer_context", context)
         parameters = self._get_processor_parameters(context)
         probe_result = self.processor.process(data, **parameters)
         if isinstance(context, ContextCollectionType):
